@@ -111,6 +111,12 @@ ValidateMergeSym == \A a, b \in States : OrValidateMerge(a, b) = OrValidateMerge
 ValidateMergeOKorKF ==
   \A a, b \in States : OrValidateMerge(a, b) = "Ok"
      \/ \E i \in 1..Len(ops) : IsAdd(ops, i) /\ Cardinality(ops[i].op.members) >= 2
+\* C17, second half (misuse configs, where two replicas edit through one actor): an error exactly when some
+\* dot is the current witness of one member in one state and of a different member in the other
+ExpVM(a, b) ==
+  IF \E m1, m2 \in Members, x \in Actors : m1 # m2 /\ a.entries[m1][x] > 0 /\ b.entries[m2][x] = a.entries[m1][x]
+  THEN "DoubleSpentDot" ELSE "Ok"
+ValidateMergeFlags == \A a, b \in States : OrValidateMerge(a, b) = ExpVM(a, b)
 \* C07
 CtxOK ==
   \A r \in Reps :
